@@ -212,6 +212,18 @@ def gen_pkg(rng, with_rest=False, want_local=None, want_collision=False):
         want_local = rng.random() < 0.15
     pending_consts = []       # (tyname, names, strconst) to be placed in another file
     nfunc = [0]
+    used_prefix = set()
+
+    def cprefix(n, tag):
+        """a constant-name prefix unique in the package (type names differing only in case or `_` exist)"""
+        base = n.strip("_").capitalize() + tag
+        k = base
+        i = 0
+        while k in used_prefix:
+            i += 1
+            k = "%s%dq" % (base, i)
+        used_prefix.add(k)
+        return k
     for f in p.files:
         for _ in range(rng.randint(2, 6)):
             k = rng.choice(kinds)
@@ -243,11 +255,13 @@ def gen_pkg(rng, with_rest=False, want_local=None, want_collision=False):
             elif k == "nonint_consts":
                 n = fresh()
                 specs = [TS(n, "nonint_consts", "%s string" % n)]
-                cn = ["%sC%d" % (n.strip("_").capitalize(), i) for i in range(rng.randint(1, 3))]
+                pre = cprefix(n, "C")
+                cn = ["%s%d" % (pre, i) for i in range(rng.randint(1, 3))]
                 pending_consts.append((f, n, cn, True, rng.random() < 0.3))
             elif k in ("enum", "enum_other_file"):
                 t = mk_int(rng, fresh()); ints.append(t); specs = [t]
-                cn = ["%sV%d" % (t.name.strip("_").capitalize(), i) for i in range(rng.randint(1, 4))]
+                pre = cprefix(t.name, "V")
+                cn = ["%s%d" % (pre, i) for i in range(rng.randint(1, 4))]
                 pending_consts.append((f, t.name, cn, False, k == "enum_other_file"))
             elif k == "int_noconst":
                 t = mk_int(rng, fresh()); t.kind = "int_noconst"; ints.append(t); specs = [t]
@@ -256,7 +270,8 @@ def gen_pkg(rng, with_rest=False, want_local=None, want_collision=False):
                     continue
                 t = mk_int(rng, fresh(), rng.choice(ints).name); t.kind = "int_of_named"; specs = [t]
                 if rng.random() < 0.5:
-                    cn = ["%sN%d" % (t.name.strip("_").capitalize(), i) for i in range(rng.randint(1, 2))]
+                    pre = cprefix(t.name, "N")
+                    cn = ["%s%d" % (pre, i) for i in range(rng.randint(1, 2))]
                     pending_consts.append((f, t.name, cn, False, False))
             elif k == "iface":
                 t = mk_iface(rng, fresh()); ifaces.append(t); specs = [t]
@@ -356,3 +371,50 @@ def nameable_names(cmd, p):
 
 def all_names(p):
     return [t.name for _, t in p.all_specs()]
+
+
+# ------------------------------------------------------- (de)serialisation
+def ts_to_json(t):
+    return {"name": t.name, "kind": t.kind, "go": t.go, "alias": t.alias, "rhs": t.rhs, "is_int": t.is_int,
+            "tparams": t.tparams}
+
+
+def ts_from_json(d):
+    return TS(d["name"], d["kind"], d["go"], alias=d["alias"], rhs=d["rhs"], is_int=d["is_int"],
+              tparams=d["tparams"])
+
+
+def pkg_to_json(p):
+    files = []
+    for f in p.files:
+        ds = []
+        for d in f.decls:
+            if d[0] == "type":
+                ds.append(["type", [ts_to_json(t) for t in d[1]], None, d[3]])
+            elif d[0] == "const":
+                ds.append(["const", d[1], list(d[2]), d[3]])
+            elif d[0] == "func":
+                ds.append(["func", d[1], [ts_to_json(t) for t in d[2]]])
+            else:
+                ds.append(["comment", d[1]])
+        files.append({"name": f.name, "decls": ds})
+    return {"files": files, "dest": [ts_to_json(t) for t in p.dest], "features": sorted(p.features)}
+
+
+def pkg_from_json(j):
+    p = Pkg()
+    for fj in j["files"]:
+        f = File(fj["name"])
+        for d in fj["decls"]:
+            if d[0] == "type":
+                f.decls.append(("type", [ts_from_json(t) for t in d[1]], None, d[3]))
+            elif d[0] == "const":
+                f.decls.append(("const", d[1], list(d[2]), d[3]))
+            elif d[0] == "func":
+                f.decls.append(("func", d[1], [ts_from_json(t) for t in d[2]]))
+            else:
+                f.decls.append(("comment", d[1]))
+        p.files.append(f)
+    p.dest = [ts_from_json(t) for t in j["dest"]]
+    p.features = set(j.get("features", []))
+    return p
